@@ -1,12 +1,12 @@
 package main
 
 import (
-	"math/big"
-	"os"
 	"fmt"
 	"go/token"
 	"go/types"
 	"math"
+	"math/big"
+	"os"
 	"regexp"
 	"strings"
 
@@ -285,7 +285,8 @@ func (ff *FuncFacts) madeLen(x ssa.Value) (ssa.Value, bool) {
 
 // contracts: relations between the results / arguments of callees that the bounds
 // reasoner may assume.  Each entry was confirmed by reading the callee.
-//   result index -> (upper bound = len(arg k))
+//
+//	result index -> (upper bound = len(arg k))
 var lenContracts = map[string]map[int]int{
 	"cipher/encoder.DeserializeString": {1: 0}, // consumed bytes <= len(in)
 	"cipher/encoder.DeserializeAtomic": {0: 0},
